@@ -137,6 +137,9 @@ func clip(s string) string {
 
 var kinds = []string{"none", "none", "task", "pipeline", "dep", "watcher", "dupname", "dupstage", "cycle1", "cycle2", "cycle3", "selfdep", "dep-other-pipeline", "dep-task-name", "dep-pipeline-name", "no-task-no-pipeline", "dep-blank"}
 
+// names of the stages that close an inclusion cycle: before and behind the other stage names in any ordering
+var closers = []string{"next", "zz-next", "a-next", "Next"}
+
 func genCase(rt *rapid.T) Case {
 	c := Case{Format: rapid.SampledFrom([]string{"yaml", "yaml", "json", "toml"}).Draw(rt, "format")}
 	nt := rapid.IntRange(1, 3).Draw(rt, "ntasks")
@@ -245,7 +248,7 @@ func genCase(rt *rapid.T) Case {
 		}
 		c.Pipes[pi] = append(c.Pipes[pi], cp)
 	case "cycle1":
-		c.Pipes[pi] = append(c.Pipes[pi], Stage{Name: "next", Pipe: fmt.Sprint("p", pi)})
+		c.Pipes[pi] = append(c.Pipes[pi], Stage{Name: rapid.SampledFrom(closers).Draw(rt, "closing-stage-name"), Pipe: fmt.Sprint("p", pi)})
 		c.Pos = "inclusion-cycle"
 	case "cycle2", "cycle3":
 		l := 2
@@ -257,6 +260,7 @@ func genCase(rt *rapid.T) Case {
 			break
 		}
 		c.Pos = "inclusion-cycle"
+		closer := rapid.SampledFrom(closers).Draw(rt, "closing-stage-name")
 		for i := 0; i < l; i++ {
 			target := fmt.Sprint("p", (i+1)%l)
 			already := false
@@ -267,7 +271,7 @@ func genCase(rt *rapid.T) Case {
 			}
 			if !already {
 				// the including stages carry the same explicit name in every pipeline of the ring
-				c.Pipes[i] = append(c.Pipes[i], Stage{Name: "next", Pipe: target})
+				c.Pipes[i] = append(c.Pipes[i], Stage{Name: closer, Pipe: target})
 			}
 		}
 	}
